@@ -263,7 +263,7 @@ fn random_history<E: Entry>(ctx: &mut Ctx, long: bool) {
             ctx.nontrivial = true;
         }
         if !long || op % 16 == 15 || op + 1 == nops {
-            let lvl = if op % 8 == 0 { Lvl { oob: false, debug: true, consume_str: false } } else { Lvl::BASIC };
+            let lvl = if op % 8 == 0 { Lvl { oob: false, debug: false, consume_str: false } } else { Lvl::BASIC };
             rereads += n as u64;
             if !live.check_all(ctx, lvl, "stability") {
                 break;
